@@ -774,6 +774,7 @@ class World:
                     rec.strict = src.strict
                 elif rec.kind == "A":
                     rec.tols = set(src.tols)
+                    rec.strict = src.strict
             model.append(sid)
         new = PathRec(op["id"], newobj, model, origin)
         new.warm = pr.warm
@@ -1389,7 +1390,9 @@ class World:
             t0, t1 = op["t0"], op["t1"]
             oc = self.impl(lambda: o.length(t0, t1))
             tw = outcome(lambda: self.twin_seg(rec).length(t0, t1))
-            if (t0, t1) == (0, 1):
+            if tolerant and rec.kind == "Q" and (t0, t1) == (1, 0):
+                self.probe("inconclusive_ill_conditioned_query_on_rounding_tainted_object")
+            elif (t0, t1) == (0, 1):
                 legit = self._legit_seg_lengths(rec, *DEFAULT_TOL)
                 self._judge_len(idx, q, oc, legit, tolerant, self._seg_atol(rec) if tolerant else 0.0)
                 if True:    # also after an interrupt: part of the work may have been done and cached
@@ -1422,7 +1425,13 @@ class World:
             tw = outcome(lambda: self.twin_seg(rec).length(1, 0))
             if rec.kind == "A":
                 return "skipped"
-            self.compare(idx, "length_t", oc, tw, tolerant, atol=self._seg_atol(rec) if tolerant else 0.0)
+            if tolerant and rec.kind == "Q":
+                # QuadraticBezier caches exactly this call, reversed() hands the value to the copy, and the
+                # closed form is unstable for (nearly) collinear control points: forward and backward
+                # evaluation can differ without bound there (inf vs -6e-06 in a soak) - not a stale cache
+                self.probe("inconclusive_ill_conditioned_query_on_rounding_tainted_object")
+            else:
+                self.compare(idx, "length_t", oc, tw, tolerant, atol=self._seg_atol(rec) if tolerant else 0.0)
         elif q == "poly":
             oc = self.impl(lambda: [complex(c) for c in o.poly(return_coeffs=True)])
             tw = outcome(lambda: [complex(c) for c in self.twin_seg(rec).poly(return_coeffs=True)])
